@@ -169,8 +169,8 @@ CHECKS = {
         text="Streams.tla (with ramp segments) describes strictly falling / rising, alternating, flat-after-activity, saw-fall and random streams of 10^5 (quick) / 10^6 "
              "(thorough) inputs for all 22 kinds and periods sampled from 1..512; the harness expands them into real calls and measures, with a per-thread counting "
              "allocator, the net heap bytes allocated inside next() since construction -- which must stay under the spec's SizeBound(kind, p) -- and samples the bincode "
-             "length (every step up to 300, then every 997th) against the same bound and for constancy; plus scripted short runs with Save after the first, second, n-th, "
-             "(n+1)-th and last input for periods 1..512.",
+             "length (every step up to 600, then every 97th) against the same bound; plus scripted short runs with Save after the first, second, n-th, "
+             "(n+1)-th and last input for periods 1..512, 30 feed/reset cycles, and non-finite inputs followed by 9n + 40 further calls.",
         note="Heap use is measured inside the harness process around each call of next(); the specification supplies the bound and the stream shapes.",
         technique="TLA+ intensional stream shapes (Streams.tla) and the SizeBound table; heap growth and serialized size measured on real runs of up to 10^6 calls",
         ref="6 (C18)"),
